@@ -587,7 +587,8 @@ def json_check(ck, prove=True):
 def _json_check(ck, prove):
     n_broken, n_viol = len(ck.broken), len(ck.violations)
     if prove:
-        ck.prove(props_file="Props/C01Json.v")
+        # Props/C01JsonLimit.v: the 4300-digit boundary by the kernel's vm (coqc); kept out of C01Json.v because coqchk has no vm
+        ck.prove(props_file="Props/C01Json.v", extra_targets=["Props/C01JsonLimit.v"])
     drv = build(ck)
     if drv is None:
         return False
